@@ -173,7 +173,7 @@ FINDINGS = [
         also=["C09", "C02", "C06"],
         trigger="name_bound_to_enum_or_structure_and_rebound",
         what="a variable that is assigned an enum member or a structure object in one place and a number elsewhere is entered into the structure table: every read of the name then denotes the enum member / device (e.g. 'bge d2 3 7'), whatever value the variable holds",
-        signatures=dict(C01=[dict(ANYTRACE, **NOEV)], C06=[dict(ANYTRACE, **NOEV)], C02=[dict(DIFF, machine_event_a=None, machine_event_b=None)], C09=[dict(monitor="loader", event="operand-kind", token_class="V:dev")]),  # C01 incl. emitted-code-not-executable
+        signatures=dict(C01=[dict(ANYTRACE, **NOEV)], C06=[dict(ANYTRACE, **NOEV)], C02=[dict(DIFF, machine_event_a=None, machine_event_b=None)], C09=[dict(monitor="loader", event="operand-kind", token_class={"in": ["V:dev", "V:alias-dev"]})]),  # C01 incl. emitted-code-not-executable
         witness=dict(C01=prog(S_ENUM_REBIND, [V_DEF]), C09=dict(src=H + S_STRUCT_REBIND, vectors=[V_DEF], stream="witness")),
     ),
     dict(
